@@ -106,6 +106,13 @@ def check_case(ctx, case):
         expf = '(' + format(make_obs(v, d), str(sig)) + format(make_obs(v2, d2), '+' + str(sig)) + 'j)'
         if sf != expf:
             probs.append(('violation', 'cobs-format', '%r vs %r' % (sf, expf)))
+        if ctx.lean is not None:
+            mr = ctx.lean.call({'op': 'cobsstr', 're': str(make_obs(v, d)), 'im': si})
+            mf = ctx.lean.call({'op': 'cobsstr', 're': format(make_obs(v, d), str(sig)), 'im': format(make_obs(v2, d2), str(sig))})
+            if '_err' in mr or '_err' in mf:
+                probs.append(('disagree', 'lean-driver-error', mr.get('_err') or mf.get('_err')))
+            elif mr['str'] != s or mf['fmt'] != sf:
+                probs.append(('disagree', 'cobs-string', 'impl %r / %r model %r / %r' % (s, sf, mr['str'], mf['fmt'])))
     elif k == 'noerr':
         v = float.fromhex(case['v'])
         o = make_obs(v, case['d'])
